@@ -1,6 +1,7 @@
 import Proofs.Graded
 import Proofs.Ring
 import Proofs.InvProps
+import Proofs.Outer
 
 /-! C09: a vector times anything splits into left contraction plus outer product -/
 
@@ -59,3 +60,64 @@ theorem projection_plus_rejection (x B Binv : Cl n sig) (hx : IsHom n 1 x) (hB :
   calc x = x * (B * Binv) := by rw [hB, mul_one]
     _ = (x * B) * Binv := by rw [mul_assoc]
     _ = _ := by rw [h', add_mul]
+
+/-! ### vectors: `a | b = ½ (ab + ba)` and `a ∧ b = ½ (ab − ba)` (what the abstract conformal identities of C08 use) -/
+
+theorem gmul_scalar_part_symm (a b : CMV n R) : gmul n sig a b fzero = gmul n sig b a fzero := by
+  simp only [gmul, fxor_zero]
+  refine Finset.sum_congr rfl (fun x _ => ?_)
+  ring
+
+/-- on vectors the inner-product table and the left-contraction table agree, and are symmetric -/
+theorem vector_inner_eq_lc (a b : CMV n R) (ha : IsHom n 1 a) (hb : IsHom n 1 b) :
+    mmul n sig Model.imtCheck a b = mmul n sig Model.lcmtCheck a b := by
+  rw [mmul_hom n sig Model.imtCheck 1 1 0 (fun v => by rw [imtCheck_iff v 1 1 (by decide) (by decide)]; simp) a b ha hb,
+    mmul_hom n sig Model.lcmtCheck 1 1 0 (fun v => by rw [lcmtCheck_iff_of_le v 1 1 (le_refl 1)]) a b ha hb]
+
+theorem vector_inner_symm (a b : CMV n R) (ha : IsHom n 1 a) (hb : IsHom n 1 b) :
+    mmul n sig Model.imtCheck a b = mmul n sig Model.imtCheck b a := by
+  rw [mmul_hom n sig Model.imtCheck 1 1 0 (fun v => by rw [imtCheck_iff v 1 1 (by decide) (by decide)]; simp) a b ha hb,
+    mmul_hom n sig Model.imtCheck 1 1 0 (fun v => by rw [imtCheck_iff v 1 1 (by decide) (by decide)]; simp) b a hb ha]
+  funext c
+  simp only [gpart]
+  split
+  · rename_i hc
+    -- grade 0 means c = 0
+    have : c = fzero := by
+      apply Fin.ext
+      have hz : ∀ i, i < n → c.val.testBit i = false := by
+        intro i hi
+        unfold pc at hc
+        have := (Finset.sum_eq_zero_iff.mp hc) i (Finset.mem_range.mpr hi)
+        unfold bit at this
+        by_cases ht : c.val.testBit i
+        · simp [ht] at this
+        · simpa using ht
+      apply Nat.eq_of_testBit_eq; intro i
+      show c.val.testBit i = (0 : Nat).testBit i
+      rw [Nat.zero_testBit]
+      by_cases hi : i < n
+      · exact hz i hi
+      · have : c.val < 2 ^ i := lt_of_lt_of_le c.isLt (Nat.pow_le_pow_right (by decide) (by omega))
+        exact Nat.testBit_lt_two_pow this
+    subst this
+    exact gmul_scalar_part_symm n sig a b
+  · rfl
+
+/-- `2 (a | b) = ab + ba` for vectors, with the coded inner-product table -/
+theorem two_vector_inner (a b : CMV n R) (ha : IsHom n 1 a) (hb : IsHom n 1 b) :
+    mmul n sig Model.imtCheck a b + mmul n sig Model.imtCheck a b = gmul n sig a b + gmul n sig b a := by
+  have h1 := vector_mul_split n sig a b ha
+  have h2 := vector_mul_split n sig b a hb
+  rw [h1, h2, mmul_omt_eq_wedge, mmul_omt_eq_wedge, wedge_vector_anticomm n b a hb ha,
+    ← vector_inner_eq_lc n sig a b ha hb, ← vector_inner_eq_lc n sig b a hb ha, vector_inner_symm n sig b a hb ha]
+  abel
+
+/-- `2 (a ∧ b) = ab − ba` for vectors -/
+theorem two_vector_wedge (a b : CMV n R) (ha : IsHom n 1 a) (hb : IsHom n 1 b) :
+    wedge n a b + wedge n a b = gmul n sig a b - gmul n sig b a := by
+  have h1 := vector_mul_split n sig a b ha
+  have h2 := vector_mul_split n sig b a hb
+  rw [h1, h2, mmul_omt_eq_wedge, mmul_omt_eq_wedge, wedge_vector_anticomm n b a hb ha,
+    ← vector_inner_eq_lc n sig a b ha hb, ← vector_inner_eq_lc n sig b a hb ha, vector_inner_symm n sig b a hb ha]
+  abel
